@@ -14,25 +14,25 @@ SPECS = [
     dict(name="vec_multidiscrete", qual="is_vectorized_multidiscrete_observation", start=None, end=None, ret="obool",
          inputs=[("oshape", "L"), ("k", "Z")], subst={"len(observation_space.nvec)": "k", **_S}),
     dict(name="vec_multibinary", qual="is_vectorized_multibinary_observation", start=None, end=None, ret="obool", inputs=_I, subst=_S),
-    dict(name="transpose_needed", file=_PP, qual="maybe_transpose", start=r"^if not \(?observation\.shape\b", end=None, kind="test", inputs=_I, subst=_S),
+    dict(name="transpose_needed", file=_PP, qual="maybe_transpose", start=r"^if .*\bobservation\.shape\b", end=None, kind="test", inputs=_I, subst=_S),
     dict(name="transpose_accepted", file=_PP, qual="maybe_transpose", start=r"^if transpose_obs\.shape\b", end=None, kind="test",
          inputs=[("tshape", "L"), ("sshape", "L")], subst={"transpose_obs.shape": "tshape", "observation_space.shape": "sshape"}),
     dict(name="transpose_rank3", file="stable_baselines3/common/vec_env/vec_transpose.py", qual="VecTransposeImage.transpose_image",
          start=r"^if len\(image\.shape\)", end=None, kind="test", inputs=[("ishape", "L")], subst={"image.shape": "ishape"}),
     # torch_layers.create_mlp: the guards and the expressions that choose the layers
-    dict(name="mlp_first_guard", file="stable_baselines3/common/torch_layers.py", qual="create_mlp", start=r"^if len\(net_arch\) > 0", end=None, kind="test",
+    dict(name="mlp_first_guard", file="stable_baselines3/common/torch_layers.py", qual="create_mlp", start=r"^if len\(net_arch\)", end=None, kind="test",
          inputs=[("net_arch", "L")]),
     dict(name="mlp_loop_count", file="stable_baselines3/common/torch_layers.py", qual="create_mlp", start=r"^for idx in range", end=None, kind="subexpr",
-         pick=r"len\(net_arch\) - 1", ret="Z", inputs=[("net_arch", "L")]),
+         pick=r"len\(net_arch\) \S+ \d+", ret="Z", inputs=[("net_arch", "L")]),
     dict(name="mlp_output_guard", file="stable_baselines3/common/torch_layers.py", qual="create_mlp", start=r"^if output_dim\b", end=None, kind="test",
          inputs=[("output_dim", "Z")]),
     dict(name="mlp_last_dim", file="stable_baselines3/common/torch_layers.py", qual="create_mlp", start=r"^last_layer_dim = ", end=None, kind="expr", ret="Z",
          inputs=[("net_arch", "L"), ("input_dim", "Z")]),
     dict(name="mlp_squash_guard", file="stable_baselines3/common/torch_layers.py", qual="create_mlp", start=r"^if squash_output", end=None, kind="test",
          inputs=[("squash_output", "bool")]),
-    dict(name="predict_squeeze_guard", file=_PO, qual="BasePolicy.predict", start=r"^if not vectorized_env", end=None, kind="test",
+    dict(name="predict_squeeze_guard", file=_PO, qual="BasePolicy.predict", start=r"^if .*\bvectorized_env\b", end=None, kind="test",
          inputs=[("vectorized_env", "bool")]),
-    dict(name="predict_squash_guard", file=_PO, qual="BasePolicy.predict", start=r"^if self\.squash_output", end=None, kind="test",
+    dict(name="predict_squash_guard", file=_PO, qual="BasePolicy.predict", start=r"^if .*self\.squash_output", end=None, kind="test",
          inputs=[("squash_output", "bool")], subst={"self.squash_output": "squash_output"}),
     dict(name="predict_clip", file=_PO, qual="BasePolicy.predict", start=r"^actions = .*self\.action_space\.low", end=None, kind="expr", ret="Q",
          inputs=[("actions", "Q"), ("low", "Q"), ("high", "Q")], subst={"self.action_space.low": "low", "self.action_space.high": "high"}),
